@@ -12,6 +12,7 @@ import (
 	"github.com/smart-core-os/sc-golang/verifharness/vcoq"
 	"google.golang.org/protobuf/proto"
 	"google.golang.org/protobuf/reflect/protoreflect"
+	"google.golang.org/protobuf/types/known/fieldmaskpb"
 )
 
 // ---- the observational monitor ----
@@ -326,7 +327,8 @@ var coreFields = []struct {
 	num  int64
 	name string
 }{{1, "default_int32"}, {2, "default_int64"}, {14, "default_string"}, {19, "default_foreign_message"},
-	{49, "repeated_foreign_message"}, {80, "optional_int32"}}
+	{49, "repeated_foreign_message"}, {80, "optional_int32"}, {18, "default_nested_message"}, {31, "repeated_int32"},
+	{44, "repeated_string"}, {69, "map_string_string"}, {71, "map_string_nested_message"}}
 
 func (g *gen) foreign() *testproto.ForeignMessage {
 	return &testproto.ForeignMessage{C: int32(g.r.Range(0, 3)), D: int32(g.r.Range(0, 2))}
@@ -386,10 +388,19 @@ type coreSub struct {
 func (g *gen) coreSeq(coll bool) {
 	var val *resource.Value
 	var col *resource.Collection
+	// the writable fields are fixed when the resource is constructed
+	wpaths, wtag := g.coreWritable()
+	var ropts []resource.Option
+	var wm *fieldmaskpb.FieldMask
+	if wpaths != nil {
+		ropts = append(ropts, resource.WithWritablePaths(&testproto.TestAllTypes{}, wpaths...))
+		wm = &fieldmaskpb.FieldMask{Paths: wpaths}
+	}
+	tmd := (&testproto.TestAllTypes{}).ProtoReflect().Descriptor()
 	if coll {
-		col = resource.NewCollection()
+		col = resource.NewCollection(ropts...)
 	} else {
-		val = resource.NewValue()
+		val = resource.NewValue(ropts...)
 	}
 	probe := func() []proto.Message {
 		if coll {
@@ -405,6 +416,7 @@ func (g *gen) coreSeq(coll bool) {
 		kind = "core.Collection"
 	}
 	s := g.newCase(kind, coll, probe)
+	s.tags[wtag] = true
 	cdr := newCoder()
 	var subs []*coreSub
 	defer func() {
@@ -445,15 +457,62 @@ func (g *gen) coreSeq(coll bool) {
 		}
 		switch k := g.r.Intn(100); {
 		case k < 40: // write
-			arg := g.coreMsg()
-			umN, umP := g.coreMask(35)
+			arg := g.coreMsgDeep(2)
 			ib, ia := g.randIcpt(), g.randIcpt()
 			if g.r.Chance(50) {
 				ia = icpt{coq: "INone", tag: "INone"}
 			}
 			var opts []resource.WriteOption
-			if umP != nil {
+			// the writable fields of this write: the resource's, widened or lifted by write options
+			eff := wm
+			var more []string
+			allW := false
+			if wm != nil && g.r.Chance(12) {
+				more = g.corePaths(1, nil)
+				opts = append(opts, resource.WithMoreWritablePaths(more...))
+				eff = fieldmaskpb.Union(wm, &fieldmaskpb.FieldMask{Paths: more})
+				s.tags["write: more writable paths"] = true
+			} else if wm != nil && g.r.Chance(6) {
+				allW = true
+				opts = append(opts, resource.WithAllFieldsWritable())
+				eff = nil
+				s.tags["write: all fields writable"] = true
+			}
+			// update mask: none, without paths, top-level fields, or paths of any depth (inside what is writable)
+			var umN []int64
+			var umP []string
+			var um *fieldmaskpb.FieldMask
+			switch {
+			case g.r.Chance(50):
+			case g.r.Chance(6):
+				um = &fieldmaskpb.FieldMask{}
+				umP = []string{}
+				opts = append(opts, resource.WithUpdateMask(um))
+				s.tags["write: update mask without paths"] = true
+			case eff == nil && g.r.Chance(50):
+				umN, umP = g.coreMask(100)
+			default:
+				var within []string
+				if eff != nil {
+					within = eff.Paths
+				}
+				umP = g.corePaths(g.r.Range(1, 3), within)
+				if umP != nil && !topLevelOnly(umP) {
+					s.tags["write: nested update mask"] = true
+				}
+			}
+			if um == nil && umP != nil {
+				um = &fieldmaskpb.FieldMask{Paths: umP}
 				opts = append(opts, resource.WithUpdatePaths(umP...))
+			}
+			var reset *fieldmaskpb.FieldMask
+			if g.r.Chance(15) {
+				reset = &fieldmaskpb.FieldMask{Paths: g.corePaths(g.r.Range(1, 2), nil)}
+				opts = append(opts, resource.WithResetPaths(reset.Paths...))
+				s.tags["write: reset mask"] = true
+			}
+			if um == nil {
+				s.tags["write: no update mask"] = true
 			}
 			if ib.fn != nil {
 				opts = append(opts, resource.InterceptBefore(ib.fn))
@@ -494,8 +553,25 @@ func (g *gen) coreSeq(coll bool) {
 			if ib.bad || ia.bad {
 				s.tags["undocumented-interceptor"] = true
 			}
-			s.after(vcoq.App("CWrite", vcoq.Z(idZ), cells, "true", optZList(umN), mode, ib.coq, ia.coq),
-				map[string]any{"call": label, "arg": argTxt, "update_mask": umP, "before": ib.coq, "after": ia.coq, "err": fmt.Sprint(err)}, false, -1)
+			js := map[string]any{"call": label, "arg": argTxt, "update_mask": umP, "before": ib.coq, "after": ia.coq, "err": fmt.Sprint(err),
+				"resource_writable_paths": wpaths, "more_writable_paths": more, "all_fields_writable": allW}
+			if reset != nil {
+				js["reset_mask"] = reset.Paths
+			}
+			if eff == nil && reset == nil && (um == nil || (len(umP) > 0 && topLevelOnly(umP))) {
+				// the fragment of Alias/Owned.v upd_merge: no writable restriction, nil or top-level update mask
+				if umP != nil && umN == nil {
+					for _, p := range umP {
+						umN = append(umN, int64(tmd.Fields().ByName(protoreflect.Name(p)).Number()))
+					}
+				}
+				s.after(vcoq.App("CWrite", vcoq.Z(idZ), cells, "true", optZList(umN), mode, ib.coq, ia.coq), js, false, -1)
+			} else {
+				// FieldUpdater.Merge as a whole (Alias/Writable.v)
+				mc := vcoq.App(g.mergeCode, optMask(tmd, eff), optMask(tmd, um), optMask(tmd, reset))
+				s.tags["write: FieldUpdater.Merge with writable / nested / reset masks"] = true
+				s.after(vcoq.App("CWriteF", vcoq.Z(idZ), cells, "true", mc, mode, ib.coq, ia.coq), js, false, -1)
+			}
 		case k < 48 && coll: // delete
 			res, err := col.Delete(ids[id])
 			label := fmt.Sprintf("op %d Delete %s", i, ids[id])
